@@ -1608,3 +1608,29 @@ twin('C05', 'bs-finish-explicit-lock', BSPY, 'BaseStorage.tpc_abort',
                 self._commit_lock_release()
         finally:
             self._lock_release()''')
+
+# ------------------------------------------------ C12 (after seeded round 1)
+breaker('C12', 'loadblob-stale-savepoint-file', 'C12.R8', CONNPY,
+        'TmpStore.loadBlob',
+        '''        if oid not in self.index:
+            # Not stored by a savepoint -- or, after a rollback, no
+            # longer: a file left by a rolled-back store must not be found.
+            return self._storage.loadBlob(oid, serial)
+''', '')
+breaker('C12', 'commit-savepoint-modified-per-object', 'C12.R9', CONNPY,
+        'Connection._commit_savepoint',
+        '''            self._modified.extend(oids)
+            self._creating.update(src.creating)
+
+            for oid in oids:''', '''            self._creating.update(src.creating)
+
+            for oid in oids:
+                self._modified.append(oid)''')
+breaker('C12', 'commit-savepoint-creating-late', 'C12.R9', CONNPY,
+        'Connection._commit_savepoint',
+        '''            self._creating.update(src.creating)
+
+            for oid in oids:''', '''            for oid in oids:''')
+twin('C12', 'loadblob-membership-via-get', CONNPY, 'TmpStore.loadBlob',
+     '''        if oid not in self.index:''',
+     '''        if not (oid in self.index):''')
